@@ -484,6 +484,9 @@ class Graph(object):
             # Apply the updates
             update_start_time = time.time()
             for v in self._vertices:
+                # Fixed vertices are never updated
+                if v.fixed:
+                    continue
                 # fmt: off
                 v.pose += dx[v.gradient_index: v.gradient_index + v.pose.COMPACT_DIMENSIONALITY]
                 # fmt: on
